@@ -342,6 +342,7 @@ def parse_decl(m, ln):
     m.decls[name]=(ret,[x[0] for x in params],va)
 
 def parse_func(m, hdr, body):
+    hdr = re.sub(r'comdat\(\$("[^"]*"|[^)]*)\)', 'comdat', hdr)     # comdat($group) names a different symbol than the function
     p = P(tokenize(hdr)); p.expect('define')
     f = Fn(); f.ret,f.name,f.params,f.vararg = parse_sig(m,p)
     f.attrs = hdr
